@@ -237,6 +237,9 @@ def oracle(case, impl):
     if mine:
         if any(n.startswith("W:BYE_") for n, _ in fired):
             return ["the refresher hung up instead of refreshing"]
+        if role == "uac" and 1 <= delta <= 10 and not any(n.startswith("refresh-needed") and t0 <= t < t0 + delta * 1000 for n, t in fired):
+            # an interval at or below the safety margin leaves no time to lose: the refresher is told at once, the timer is not switched off
+            return ["Session-Expires %d with this side as refresher: no refresh was asked for before the interval ended (the timer is silently disabled)" % delta]
         # first refresh after each mark strictly before mark + delta (if the horizon reaches that far)
         for i, mk in enumerate(marks):
             nxt = marks[i + 1] if i + 1 < len(marks) else None
